@@ -35,6 +35,8 @@ LEAN_T = {'int': 'Int', 'bytes': 'List UInt8', 'listint': 'List Int', 'bool': 'B
           'triple': '(Int × Int × Int)', 'listtriple': 'List (Int × Int × Int)',
           'header': 'Py.Header', 'listheader': 'List Py.Header', 'none': 'Unit',
           'hexstr': 'List Nat',
+          'obj': 'Py.Obj', 'pytype': 'Py.Ty', 'hdr': 'Py.Hdr', 'listhdr': 'List Py.Hdr', 'listobj': 'List Py.Obj',
+          'headers': 'Py.Headers', 'listbytes': 'List (List UInt8)', 'listbool': 'List Bool',
           'valmap': 'List (List UInt8 × Int)', 'mapentry': '(Int × List (List UInt8 × Int))',
           'staticmap': 'List (List UInt8 × (Int × List (List UInt8 × Int)))'}
 
@@ -59,6 +61,10 @@ def coerce(text, ty, target):
     """a value of static type `ty` where `target` is expected (None / a value into an Optional)"""
     if ty == target:
         return text
+    if {ty, target} == {'tuple:bytes,bytes', 'entry'}:
+        return text
+    if ty == 'obj' and target == 'bool':
+        return '(Py.Obj.truthy %s)' % text          # the callee only ever tests the argument's truth value
     if target.startswith('opt:'):
         if ty == 'none':
             return '(none : %s)' % lean_t(target)
@@ -185,6 +191,9 @@ def expr(e, env, cx, expect=None):
         lines, tt = own_call(cx, e.attr + '.getter', [])
         return lines, tt, cx.cls['properties'][e.attr]
     if isinstance(e, ast.Attribute) and isinstance(e.value, ast.Name):
+        if e.attr == 'indexable' and env.get(e.value.id) == 'hdr':
+            tt = cx.fresh()
+            return [B(cx, tt, 'Py.Hdr.indexable %s' % lname(e.value.id))], tt, 'bool'
         if e.value.id == 'self' and env.get('self', '').startswith('self:') and cx.cls and e.attr in cx.cls['fields']:
             return [], 'self.' + fname_(e.attr), cx.cls['fields'][e.attr]
         if cx.cls and e.value.id == cx.cls['name'] and e.attr in cx.cls['consts']:
@@ -314,9 +323,14 @@ def expr(e, env, cx, expect=None):
     if isinstance(e, ast.Subscript):
         bv, tv, tyv = expr(e.value, env, cx)
         bi, ti, tyi = expr(e.slice, env, cx)
+        if tyv == 'headers' and tyi == 'obj':
+            t = cx.fresh()
+            return bv + bi + [B(cx, t, 'Py.Headers.getItem %s %s' % (tv, ti))], t, 'obj'
         if tyi != 'int':
             raise Unsupported('subscript with ' + tyi)
         t = cx.fresh()
+        if tyv == 'hdr':
+            return bv + bi + [B(cx, t, 'Py.Hdr.get %s %s' % (tv, ti))], t, 'obj'
         if tyv == 'bytes':
             return bv + bi + [B(cx, t, 'Py.getByte %s %s' % (tv, ti))], t, 'int'
         if tyv == 'listint':
@@ -326,6 +340,8 @@ def expr(e, env, cx, expect=None):
         if tyv == 'listtriple':
             return bv + bi + [B(cx, t, 'Py.seqGet %s %s' % (tv, ti))], t, 'triple'
         raise Unsupported('subscript of ' + tyv)
+    if isinstance(e, ast.List) and not e.elts and expect and expect.startswith('list'):
+        return [], '([] : %s)' % lean_t(expect), expect
     if isinstance(e, ast.List) and not e.elts and getattr(cx, 'empty_list_type', None):
         return [], '([] : %s)' % lean_t(cx.empty_list_type), cx.empty_list_type
     if isinstance(e, ast.List):
@@ -420,8 +436,7 @@ def expr(e, env, cx, expect=None):
         bs, ts = [], []
         for a, pt in zip(vals, ptys):
             b, t, ty = expr(a, env, cx)
-            if ty != pt:
-                raise Unsupported('argument of self.%s: %s where %s is expected' % (e.func.attr, ty, pt))
+            t = coerce(t, ty, pt)
             bs += b; ts.append(t)
         lines, tt = own_call(cx, e.func.attr, ts)
         return bs + lines, tt, rty
@@ -434,6 +449,79 @@ def expr(e, env, cx, expect=None):
                 raise Unsupported('join of ' + ty)
             bs += b; ts.append(t)
         return bs, '(' + ' ++ '.join(ts) + ')' if ts else '([] : List UInt8)', 'bytes'
+    # ---- dynamically typed values at the Encoder.encode boundary (Py.Obj / Py.Hdr / Py.Headers)
+    if isinstance(e, ast.Call) and isinstance(e.func, ast.Name) and e.func.id == 'type' and len(e.args) == 1 and not e.keywords:
+        b, t, ty = expr(e.args[0], env, cx)
+        if ty == 'obj':
+            return b, '(Py.Obj.typeOf %s)' % t, 'pytype'
+        raise Unsupported('type() of ' + ty)
+    if isinstance(e, ast.Call) and isinstance(e.func, ast.Name) and e.func.id == 'str' and len(e.args) == 1 and not e.keywords:
+        b, t, ty = expr(e.args[0], env, cx)
+        if ty == 'obj':
+            tt = cx.fresh()
+            return b + [B(cx, tt, 'Py.Obj.strOf %s' % t)], tt, 'obj'
+        raise Unsupported('str() of ' + ty)
+    if isinstance(e, ast.Call) and isinstance(e.func, ast.Name) and e.func.id == 'iter' and len(e.args) == 1 and not e.keywords:
+        b, t, ty = expr(e.args[0], env, cx)
+        if ty == 'headers':
+            tt = cx.fresh()
+            return b + [B(cx, tt, 'Py.Headers.iter %s' % t)], tt, 'listhdr'
+        raise Unsupported('iter() of ' + ty)
+    if isinstance(e, ast.Call) and isinstance(e.func, ast.Attribute) and e.func.attr == 'encode' and len(e.args) == 1 \
+            and isinstance(e.args[0], ast.Constant) and e.args[0].value == 'utf-8' and not e.keywords:
+        b, t, ty = expr(e.func.value, env, cx)
+        if ty == 'obj':
+            tt = cx.fresh()
+            return b + [B(cx, tt, 'Py.Obj.encodeUtf8 %s' % t)], tt, 'bytes'
+    if isinstance(e, ast.Call) and isinstance(e.func, ast.Attribute) and e.func.attr == 'startswith' and len(e.args) == 1 and not e.keywords:
+        b1, t1, ty1 = expr(e.func.value, env, cx)
+        b2, t2, ty2 = expr(e.args[0], env, cx)
+        if ty1 == 'bytes' and ty2 == 'bytes':
+            return b1 + b2, '(Py.startsWith %s %s)' % (t1, t2), 'bool'
+        raise Unsupported('startswith on %s, %s' % (ty1, ty2))
+    if isinstance(e, ast.Call) and isinstance(e.func, ast.Attribute) and e.func.attr == 'keys' and not e.args and not e.keywords:
+        b, t, ty = expr(e.func.value, env, cx)
+        if ty == 'headers':
+            tt = cx.fresh()
+            return b + [B(cx, tt, 'Py.Headers.keys %s' % t)], tt, 'listobj'
+    if isinstance(e, ast.Attribute) and e.attr == 'indexable' and isinstance(e.value, ast.Name) and env.get(e.value.id) == 'hdr':
+        tt = cx.fresh()
+        return [B(cx, tt, 'Py.Hdr.indexable %s' % lname(e.value.id))], tt, 'bool'
+    if isinstance(e, ast.Subscript) and isinstance(e.value, ast.Name) and env.get(e.value.id) == 'hdr' and not isinstance(e.slice, ast.Slice):
+        bi, ti, tyi = expr(e.slice, env, cx)
+        if tyi != 'int':
+            raise Unsupported('subscript with ' + tyi)
+        tt = cx.fresh()
+        return bi + [B(cx, tt, 'Py.Hdr.get %s %s' % (lname(e.value.id), ti))], tt, 'obj'
+    if isinstance(e, ast.Subscript) and isinstance(e.value, ast.Name) and env.get(e.value.id) == 'headers' and not isinstance(e.slice, ast.Slice):
+        bi, ti, tyi = expr(e.slice, env, cx)
+        if tyi != 'obj':
+            raise Unsupported('dict key of type ' + tyi)
+        tt = cx.fresh()
+        return bi + [B(cx, tt, 'Py.Headers.getItem %s %s' % (lname(e.value.id), ti))], tt, 'obj'
+    # sorted(xs, key=lambda k: <bool>): the keys are computed first, in order (an exception stops there), then a stable sort
+    if isinstance(e, ast.Call) and isinstance(e.func, ast.Name) and e.func.id == 'sorted' and len(e.args) == 1 and len(e.keywords) == 1 \
+            and e.keywords[0].arg == 'key' and isinstance(e.keywords[0].value, ast.Lambda) and len(e.keywords[0].value.args.args) == 1:
+        lam = e.keywords[0].value
+        bq, tq, tyq = expr(e.args[0], env, cx)
+        if tyq != 'listobj':
+            raise Unsupported('sorted over ' + tyq)
+        kv = lam.args.args[0].arg
+        env2 = dict(env); env2[kv] = 'obj'
+        was = getattr(cx, 'method', False)
+        cx.method = False
+        try:
+            bk, tk, tyk = expr(lam.body, env2, cx)
+        finally:
+            cx.method = was
+        if tyk != 'bool':
+            raise Unsupported('sort key of type ' + tyk)
+        tt = cx.fresh()
+        body = ' '.join(x + ';' for x in bk) + ' .ok ' + tk if bk else '.ok ' + tk
+        return bq + [B(cx, tt + '_k', 'Py.listMapM (fun %s => do %s) %s' % (lname(kv), body, tq))], '(Py.sortedByBool %s %s_k)' % (tq, tt), 'listobj'
+    if isinstance(e, ast.Call) and isinstance(e.func, ast.Attribute) and e.func.attr == 'join' and isinstance(e.func.value, ast.Constant) \
+            and e.func.value.value == b'' and len(e.args) == 1 and isinstance(e.args[0], ast.Name) and env.get(e.args[0].id) == 'listbytes':
+        return [], '(Py.joinBytes %s)' % lname(e.args[0].id), 'bytes'
     if isinstance(e, ast.Call) and isinstance(e.func, ast.Name) and e.func.id == 'ord' and len(e.args) == 1:
         b, t, ty = expr(e.args[0], env, cx)
         if ty != 'bytes':
@@ -476,6 +564,8 @@ def expr(e, env, cx, expect=None):
             b, t, ty = expr(e.args[0], env, cx)
             if ty in ('bytes', 'listint', 'listentry', 'hexstr'):
                 return b, '((%s).length : Int)' % t, 'int'
+            if ty == 'hdr':
+                return b, '(Py.Hdr.len %s)' % t, 'int'
         if f == 'int' and len(e.args) == 1:
             b, t, ty = expr(e.args[0], env, cx)
             if ty == 'int':
@@ -491,7 +581,7 @@ def expr(e, env, cx, expect=None):
                     raise Unsupported('argument of %s: %s where %s is expected' % (f, ty, pt))
                 bs += b; ts.append(t)
             tt = cx.fresh()
-            return bs + [B(cx, tt, '%s fuel %s' % (f, ' '.join(ts)))], tt, rty
+            return bs + [B(cx, tt, '%s fuel %s' % (lname(f), ' '.join(ts)))], tt, rty
         raise Unsupported('call of ' + f)
     raise Unsupported('expression ' + type(e).__name__)
 
@@ -508,6 +598,19 @@ def cond(e, env, cx):
     if isinstance(e, ast.UnaryOp) and isinstance(e.op, ast.Not):
         b, t = cond(e.operand, env, cx)
         return b, '(¬ %s)' % t
+    if isinstance(e, ast.Call) and isinstance(e.func, ast.Name) and e.func.id == 'isinstance' and len(e.args) == 2 and isinstance(e.args[1], ast.Name):
+        b, t, ty = expr(e.args[0], env, cx)
+        if ty == 'headers' and e.args[1].id == 'dict':
+            return b, '(Py.Headers.isDict %s = true)' % t
+        if ty == 'hdr' and e.args[1].id == 'HeaderTuple':
+            return b, '(Py.Hdr.isHeaderTuple %s = true)' % t
+        raise Unsupported('isinstance(%s, %s)' % (ty, e.args[1].id))
+    if isinstance(e, ast.Compare) and len(e.ops) == 1 and isinstance(e.ops[0], (ast.Is, ast.IsNot)) and isinstance(e.comparators[0], ast.Name) \
+            and e.comparators[0].id in ('bytes', 'str') and e.comparators[0].id not in env:
+        b, t, ty = expr(e.left, env, cx)
+        if ty != 'pytype':
+            raise Unsupported('identity test of ' + ty)
+        return b, '(%s %s Py.Ty.%s)' % (t, '=' if isinstance(e.ops[0], ast.Is) else '≠', e.comparators[0].id)
     if not isinstance(e, ast.Compare):
         # truthiness of a value: a non-zero integer, a non-empty bytes object, a true bool
         b, t, ty = expr(e, env, cx)
@@ -784,6 +887,8 @@ def tr(stmts, env, cx, k):
             b, t, ty = expr(s.value, env, cx)
         if ty == 'str':
             return b + tr(rest, env, cx, k)          # opaque strings (messages) are not tracked
+        if ty == 'tuple:bytes,bytes':
+            ty = 'entry'
         if ty.startswith('tuple'):
             raise Unsupported('tuple assignment')
         env2 = dict(env); env2[name] = ty
@@ -850,6 +955,19 @@ def tr(stmts, env, cx, k):
             if ty != 'header':
                 raise Unsupported('append of ' + ty)
             return b + ['let %s := %s ++ [%s]' % (lname(lst), lname(lst), t)] + tr(rest, env, cx, k)
+        if env.get(lst) == 'listbytes' and len(s.value.args) == 1:
+            b, t, ty = expr(s.value.args[0], env, cx)
+            if ty != 'bytes':
+                raise Unsupported('append of ' + ty)
+            return b + ['let %s := %s ++ [%s]' % (lname(lst), lname(lst), t)] + tr(rest, env, cx, k)
+        if env.get(lst) == 'listhdr' and len(s.value.args) == 1 and isinstance(s.value.args[0], ast.Tuple):
+            bs, ts = [], []
+            for x in s.value.args[0].elts:
+                b, t, ty = expr(x, env, cx)
+                if ty != 'obj':
+                    raise Unsupported('tuple element of type ' + ty)
+                bs += b; ts.append(t)
+            return bs + ['let %s := %s ++ [Py.Hdr.tuple [%s]]' % (lname(lst), lname(lst), ', '.join(ts))] + tr(rest, env, cx, k)
         if env.get(lst) == 'bytes' and len(s.value.args) == 1:          # bytearray.append(int): ValueError outside range(256)
             b, t, ty = expr(s.value.args[0], env, cx)
             if ty != 'int':
@@ -925,6 +1043,9 @@ def tr(stmts, env, cx, k):
             b, t, ty = expr(s.value, env, cx, expect=inner)
             if want and want.startswith('opt:'):
                 t = coerce(t, ty, want)
+            if ty == 'obj' and want == 'bytes':         # `return value  # type: ignore`: the declared type, checked
+                tt = cx.fresh()
+                b = b + [B(cx, tt, 'Py.Obj.asBytes %s' % t)]; t = tt
         if k.ret is not None:
             return b + k.ret(env, t)
         return b + [ret_ok(env, t, cx)]
@@ -1011,9 +1132,9 @@ def tr(stmts, env, cx, k):
         if s.orelse or not isinstance(s.target, ast.Name):
             raise Unsupported('for … else / tuple target')
         bq, tq, tyq = expr(s.iter, env, cx)
-        if tyq not in ('bytes', 'listint'):
+        if tyq not in ('bytes', 'listint', 'listobj', 'listhdr'):
             raise Unsupported('iteration over ' + tyq)
-        elem_lean = 'List UInt8' if tyq == 'bytes' else 'List Int'
+        elem_lean = {'bytes': 'List UInt8', 'listint': 'List Int', 'listobj': 'List Py.Obj', 'listhdr': 'List Py.Hdr'}[tyq]
         cx.nloop += 1
         lf = '%s.for%d' % (cx.fname, cx.nloop)
         var = s.target.id
@@ -1031,14 +1152,28 @@ def tr(stmts, env, cx, k):
             raise Unsupported('return / break / continue inside a for loop')
         call = lambda env_: ['%s fuel it_rest %s' % (lf, ' '.join(lname(p) for p in params))]
         kl = K(fall=call, brk=None, ret_ok=False)
-        envl = dict(env); envl[var] = 'int'
+        envl = dict(env); envl[var] = {'bytes': 'int', 'listint': 'int', 'listobj': 'obj', 'listhdr': 'hdr'}[tyq]
         body = tr(list(s.body), envl, cx, kl)
         rty = ' × '.join(lean_t(env[v]) for v in rets) if rets else 'Unit'
         sig = 'def %s : Nat → %s → %s → %s (%s)' % (lf, elem_lean, ' → '.join(lean_t(env[p]) for p in params), MON(cx), rty)
         txt = [sig, '  | _, [], %s => .ok %s' % (', '.join(lname(p) for p in params), tuple_text(rets) if rets else '()'),
                '  | fuel, it_head :: it_rest, %s => do' % ', '.join(lname(p) for p in params),
                '    let %s := %s' % (lname(var), '(it_head.toNat : Int)' if tyq == 'bytes' else 'it_head')] + ind(body, 4)
-        cx.loops.append('\n'.join(txt))
+        # the continuation style re-translates a loop once per path that reaches it: texts that agree up to the loop's own
+        # name and the numbering of temporaries are one function
+        import re as _re
+        def canon(text, own):
+            text = text.replace(own, '@LOOP')
+            seen_ = {}
+            return _re.sub(r'\bt(\d+)(_r|_k)?\b', lambda m: 'T%d%s' % (seen_.setdefault(m.group(1), len(seen_)), m.group(2) or ''), text)
+        mine = canon('\n'.join(txt), lf)
+        if not hasattr(cx, 'loop_canon'):
+            cx.loop_canon = {}
+        if mine in cx.loop_canon:
+            lf = cx.loop_canon[mine]
+        else:
+            cx.loop_canon[mine] = lf
+            cx.loops.append('\n'.join(txt))
         pat = tuple_text(rets) if rets else '_'
         return bq + ['let %s ← %s fuel %s %s' % (pat, lf, tq, ' '.join(lname(p) for p in params))] + tr(rest, env, cx, k)
     if isinstance(s, ast.Try):
@@ -1094,12 +1229,19 @@ def translate_function(fn, consts, cls=None, funcs=None, lean_name=None):
             env['self'] = 'self:' + cls['name']
             continue
         ann = ast.unparse(a.annotation) if a.annotation is not None else ''
-        ty = {'bytes | None': 'bytes', 'list[int]': 'listint', 'tuple[bytes, bytes]': 'entry', 'HeaderWeaklyTyped': 'header', 'bool': 'bool', 'HeaderTuple': 'header', 'int': 'int', 'bytes': 'bytes', 'bytearray': 'bytes', 'bytes | bytearray': 'bytes', 'memoryview': 'bytes', 'bytes | bytearray | None': 'bytes', 'bytes | None': 'bytes'}.get(ann)
+        if ann == 'bytes | str | Any':
+            ann = 'OBJ'
+        elif ann.startswith('dict[') or (ann.startswith('Iterable[') and ann.endswith(']') and '| dict[' in ann):
+            ann = 'HEADERS'
+        ty = {'OBJ': 'obj', 'HEADERS': 'headers', 'bytes | None': 'bytes', 'list[int]': 'listint', 'tuple[bytes, bytes]': 'entry', 'HeaderWeaklyTyped': 'header', 'bool': 'bool', 'HeaderTuple': 'header', 'int': 'int', 'bytes': 'bytes', 'bytearray': 'bytes', 'bytes | bytearray': 'bytes', 'memoryview': 'bytes', 'bytes | bytearray | None': 'bytes', 'bytes | None': 'bytes'}.get(ann)
         if ty is None:
             raise Unsupported('parameter %s: %s' % (a.arg, ann))
         env[a.arg] = ty
     ret = ast.unparse(fn.returns) if fn.returns is not None else ''
-    rkind = {'Optional[tuple[int, bytes, Optional[bytes]]]': 'opt:' + SEARCHRES, 'tuple[HeaderTuple, int]': 'tuple:header,int', 'Iterable[HeaderTuple]': 'listheader', 'HeaderTuple': 'header', 'bytearray': 'bytes', 'bytes': 'bytes', 'int': 'int', 'tuple[int, int]': 'tuple:int,int', 'None': 'unit', 'tuple[bytes, bytes]': 'entry'}.get(ret)
+    is_gen = any(isinstance(n, (ast.Yield, ast.YieldFrom)) for n in ast.walk(fn))
+    if is_gen and ret.startswith('Iterable[tuple['):
+        ret = 'GEN'
+    rkind = {'GEN': 'listhdr', 'Optional[tuple[int, bytes, Optional[bytes]]]': 'opt:' + SEARCHRES, 'tuple[HeaderTuple, int]': 'tuple:header,int', 'Iterable[HeaderTuple]': 'listheader', 'HeaderTuple': 'header', 'bytearray': 'bytes', 'bytes': 'bytes', 'int': 'int', 'tuple[int, int]': 'tuple:int,int', 'None': 'unit', 'tuple[bytes, bytes]': 'entry'}.get(ret)
     if rkind is None:
         raise Unsupported('return annotation %s' % ret)
     cx.rkind = rkind
@@ -1107,7 +1249,24 @@ def translate_function(fn, consts, cls=None, funcs=None, lean_name=None):
     rty = lean_t(rkind)
     if 'self' in env:
         rty = '%s × %s' % (cls['name'], rty)
-    body = tr(list(fn.body), env, cx, K(fall=lambda env_: [ret_ok(env_, '()', cx)], ret_ok=True))
+    stmts = list(fn.body)
+    if is_gen:
+        # a generator consumed to exhaustion by one `for` loop: the list of what it yields (its side effects and the
+        # caller's loop body are not interleaved in this rendering; nothing in the translated callers depends on that)
+        class Y(ast.NodeTransformer):
+            def visit_Expr(self, node):
+                if isinstance(node.value, ast.Yield) and node.value.value is not None:
+                    return ast.Expr(value=ast.Call(func=ast.Attribute(value=ast.Name(id='gen_out', ctx=ast.Load()), attr='append', ctx=ast.Load()),
+                                                   args=[node.value.value], keywords=[]))
+                return self.generic_visit(node)
+        stmts = [Y().visit(x) for x in stmts]
+        if any(isinstance(n, (ast.Yield, ast.YieldFrom)) for x in stmts for n in ast.walk(x)):
+            raise Unsupported('yield in expression position')
+        cx.var_types = dict(cx.var_types); cx.var_types['gen_out'] = 'listhdr'
+        stmts = [ast.Assign(targets=[ast.Name(id='gen_out', ctx=ast.Store())], value=ast.List(elts=[], ctx=ast.Load()))] + stmts + \
+                [ast.Return(value=ast.Name(id='gen_out', ctx=ast.Load()))]
+        # docstring stays first-class: dropped by is_dropped wherever it stands
+    body = tr(stmts, env, cx, K(fall=lambda env_: [ret_ok(env_, '()', cx)], ret_ok=True))
     sig = 'def %s (fuel : Nat) %s : %s (%s) := do' % (cx.fname, ' '.join('(%s : %s)' % (lname(a), lean_t(t)) for a, t in env.items()), MON(cx), rty)
     cx.ptys = [t for a, t in env.items() if a != 'self']
     cx.rkind = rkind
@@ -1124,6 +1283,10 @@ def module_consts(repo, module, cls=None):
             "c = getattr(m, %r, None) if %r else None;"
             "out['cls'] = {k: ({'int': v} if isinstance(v, int) else {'listint': list(v)}) for k, v in (vars(c).items() if c else []) if ok(v)};"
             "out['cls'].update({k: {'listentry': [[x[0].hex(), x[1].hex()] for x in v]} for k, v in (vars(c).items() if c else []) if pairs(v)});"
+            "ht = getattr(m, 'HeaderTuple', None); nt = getattr(m, 'NeverIndexedHeaderTuple', None);"
+            "out['tuples'] = None if ht is None or nt is None else {'HeaderTuple_indexable': ht(b'a', b'b').indexable is True, 'NeverIndexedHeaderTuple_indexable': nt(b'a', b'b').indexable is True,"
+            " 'NeverIndexedHeaderTuple_isHeaderTuple': isinstance(nt(b'a', b'b'), ht), 'HeaderTuple_isTuple2': isinstance(ht(b'a', b'b'), tuple) and len(ht(b'a', b'b')) == 2 and len(nt(b'a', b'b')) == 2,"
+            " 'plainTuple_isHeaderTuple': isinstance((b'a', b'b'), ht)};"
             "print(json.dumps(out))") % (os.path.join(repo, 'src'), module, cls or '', cls or '')
     p = subprocess.run([sys.executable, '-I', '-c', code], capture_output=True, text=True)
     if p.returncode != 0:
@@ -1191,6 +1354,26 @@ def translate_unit(repo, unit):
         parts.append(text)
         report['functions'][f] = {'loops': cx.nloop, 'lines': text.count('\n') + 1}
         note_consts(cx)
+    # optional parts: their own tie module; when one is outside the subset the rest of the unit is still emitted
+    for f in unit.get('optional_functions', []):
+        try:
+            if f not in defs:
+                raise Unsupported('function %s not found in %s' % (f, unit['rel']))
+            cx, text = translate_function(defs[f], consts, None, funcs)
+        except Unsupported as ex:
+            report['functions'][f] = {'unavailable': str(ex)}
+            continue
+        funcs[f] = (cx.ptys, cx.rkind)
+        parts.append(text)
+        report['functions'][f] = {'loops': cx.nloop, 'lines': text.count('\n') + 1}
+        note_consts(cx)
+    if unit.get('tuple_consts'):
+        if not rt.get('tuples'):
+            raise Unsupported('HeaderTuple / NeverIndexedHeaderTuple not importable from %s' % unit['module'])
+        for k_, v_ in rt['tuples'].items():
+            const_lines.append('/-- run-time fact about the header tuple classes (constructed instances inspected by the translator) -/')
+            const_lines.append('def c_%s : Bool := %s' % (k_, 'true' if v_ else 'false'))
+            report['constants'][k_] = v_
     struct_lines = []
     if unit.get('cls'):
         cname = unit['cls']
@@ -1246,11 +1429,18 @@ def translate_unit(repo, unit):
                         key = n.name + '.getter'
                 mdefs[key] = n
         mparts = []
-        for m in unit.get('methods', []):
-            if m not in mdefs:
-                raise Unsupported('method %s.%s not found' % (cname, m))
+        for m in list(unit.get('methods', [])) + list(unit.get('optional_methods', [])):
+            optional = m in unit.get('optional_methods', [])
             lean = '%s.%s' % (cname, lname_m(m).replace('.setter', '_set').replace('.getter', '_get'))
-            cx, text = translate_function(mdefs[m], consts, cls, funcs, lean_name=lean)
+            try:
+                if m not in mdefs:
+                    raise Unsupported('method %s.%s not found' % (cname, m))
+                cx, text = translate_function(mdefs[m], consts, cls, funcs, lean_name=lean)
+            except Unsupported as ex:
+                if not optional:
+                    raise
+                report['functions'][cname + '.' + m] = {'unavailable': str(ex)}
+                continue
             cls['methods'][m] = (cx.ptys, cx.rkind)
             cls['method_params'][m] = [a.arg for a in mdefs[m].args.args if a.arg != 'self']
             if m.endswith('.getter'):
@@ -1305,6 +1495,8 @@ UNITS = {
                            '_encode_indexed_literal', '_encode_table_size_change', 'add'],
                'imports': ['HpackVerif.Generated.SrcInt', 'HpackVerif.Generated.SrcTable', 'HpackVerif.Impl.EncModel', 'HpackVerif.Generated.Codes'],
                'prelude_lines': ENC_PRELUDE,
+               'optional_functions': ['_to_bytes', '_dict_to_iterable'], 'optional_methods': ['encode'], 'tuple_consts': True,
+               'var_types': {'encode': {'header_block': 'listbytes'}},
                'extern_funcs': {'encode_integer': (['int', 'int'], 'bytes')},
                'extern': {'HeaderTable': {'methods': {'search': (['bytes', 'bytes'], 'opt:' + SEARCHRES), 'add': (['bytes', 'bytes'], 'unit')},
                                           'properties': {'maxsize': 'int'}, 'fields': {'resized': 'bool'}},
